@@ -502,6 +502,87 @@ def hash_cases(rng, tier):
                "force_flags": [["--hash-records"], ["--no-hash-records"], ["--no-hash-records", "--records-per-batch", "1"]]}
 
 
+# ---------------------------------------------------------------- one value object in many records
+
+ALIAS_SOURCES = [
+    # stages which may put the same value object (a filler, a constant, an out-of-stream variable, the previous record's
+    # value) into many records
+    lambda r: ["fill-empty", "-v", r.choice(["0", "7", "1.5", "abc", "0x10"])],
+    lambda r: ["fill-empty", "-S", "-v", "3"],
+    lambda r: ["fill-empty", "--only-if-blank", "-v", "4"] if False else ["fill-empty"],
+    lambda r: ["fill-down", "-a", "-f", "e"],
+    lambda r: ["fill-down", "-f", "e"],
+    lambda r: ["unsparsify", "--fill-with", r.choice(["0", "9", "u"])],
+    lambda r: ["unsparsify", "-f", "e,g,h", "--fill-with", "5"],
+    lambda r: ["template", "-f", "a,e,g,i", "--fill-with", "6"],
+    lambda r: ["put", "begin { @c = 3 } $g = @c"],
+    lambda r: ["put", "begin { @m = {\"p\": 1, \"q\": {\"r\": 2}} } $g = @m"],
+    lambda r: ["put", "begin { @m = {\"p\": 1} } $* = mapsum($*, @m)"],
+    lambda r: ["put", "@last = is_present(@last) ? @last : $i; $g = @last"],
+    lambda r: ["put", "$g = $i; $h = $g"],
+    lambda r: ["put", "-S", "$g = $e . \"\""] if False else ["put", "$g = $e"],
+    lambda r: ["step", "-a", "shift,shift_lag,shift_lead", "-f", "i"],
+    lambda r: ["step", "-a", "ewma", "-d", "0.1,0.9", "-f", "i"],
+    lambda r: ["merge-fields", "-k", "-a", "sum,count", "-f", "i,e", "-o", "mf"],
+    lambda r: ["count-similar", "-g", "a"],
+    lambda r: ["fraction", "-f", "i"],
+    lambda r: ["nest", "--evar", ";", "-f", "b"],
+    lambda r: ["sec2gmt", "-1", "e"],
+    lambda r: ["having-fields", "--at-least", "a"],
+    lambda r: ["seqgen-free"] if False else ["cat", "-n", "-g", "a"],
+]
+
+ALIAS_USERS = [
+    lambda r: ["put", "$y = $e + 1"],
+    lambda r: ["put", "$y = $e . \"s\"; $z = $g + 1"],
+    lambda r: ["put", "$t = typeof($e) . \":\" . typeof($g) . \":\" . asserting_not_error($e)"],
+    lambda r: ["put", "$e = $e * 2"],
+    lambda r: ["put", "$g[\"p\"] = NR"] if False else ["put", "if (is_map($g)) { $g[\"p\"] = $i } else { $g = $g . \"x\" }"],
+    lambda r: ["put", "$* = mapsum($*, {\"w\": $e})"],
+    lambda r: ["sec2gmt", "e"],
+    lambda r: ["format-values", "-n", "-f", "%.2f"],
+    lambda r: ["sort", "-nr", "e"],
+    lambda r: ["stats1", "-a", "sum,count,mode", "-f", "e,g"],
+    lambda r: ["top", "-f", "e", "-a"],
+    lambda r: ["step", "-a", "delta,rsum", "-f", "e"],
+    lambda r: ["fill-empty", "-v", "8"],
+    lambda r: ["cat"],
+]
+
+ALIAS_OFLAGS = [["--ojson", "--jvquoteall"], ["--ojsonl", "--jvquoteall"], ["--ojson"], ["--ojson", "--jvstack"], ["--ojsonl"], [], ["--ofmt", "%.3f"],
+                ["--ojson", "--ofmt", "%.2lf"], ["--oxtab"], ["--ocsv", "--quote-all"], ["--oflatsep", ":"], ["--ojson", "--no-auto-unflatten"],
+                ["--ocsv", "--quote-original"] if False else ["--otsv"], ["--opprint", "--right"]]
+
+
+def alias_cases(rng, tier):
+    """A stage that may hand the same value object to many records, then stages (and a writer) that read, retype, format
+    or modify record values: whatever one stage does to the value in one record must not show in another record, for
+    any batch size and schedule."""
+    i = 0
+    while True:
+        i += 1
+        r = rng.fork("alias", i)
+        n = r.choice([2, 5, 12, 40, 600, 1300])
+        recs = []
+        for k in range(n):
+            rec = [("a", r.choice(VOCAB_A)), ("b", r.choice(["p;q", "r", "s;t;u"])), ("i", str(r.randint(0, 40))),
+                   ("e", "" if r.chance(0.6) else str(r.randint(1, 9)))]
+            if r.chance(0.3):
+                rec.append(("h", ""))
+            recs.append(rec)
+        fmt = r.choice(["dkvp", "json", "dkvp"])
+        text = {"dkvp": to_dkvp, "json": to_json}[fmt](recs)
+        iflags = {"dkvp": [], "json": ["--ijson"]}[fmt]
+        verbs = [r.choice(ALIAS_SOURCES)(r)]
+        if r.chance(0.3):
+            verbs.append(r.choice(ALIAS_SOURCES)(r))
+        for _ in range(r.randint(1, 2)):
+            verbs.append(r.choice(ALIAS_USERS)(r))
+        args = ["mlr"] + iflags + r.choice(ALIAS_OFLAGS) + chain_args(verbs) + ["in0.txt"]
+        yield {"kind": "alias", "args": args, "files": {"in0.txt": text}, "cseed": r.randint(1, 1 << 40), "nconf": 5 if tier == "quick" else 8,
+               "force_preempt": [2, 5, 20, 100]}
+
+
 # ---------------------------------------------------------------- verbs of the same kind side by side, preempted mid-function
 
 SAME_KIND = [
